@@ -193,9 +193,12 @@ class Merger(object):
         channel_maps_l = _load_multiple_files('channel_map.npy', self.subdirs)
         # TODO if needed: channel_shanks.npy
         offset = 0
+        n_channels = 0
         for ind, array in enumerate(channel_maps_l):
             array += offset
-            self.channel_offsets.append(offset)
+            # Index of the first channel of this probe in the merged channel arrays.
+            self.channel_offsets.append(n_channels)
+            n_channels += int(array.size)
             offset = array.max()
             channel_probes.append(array * 0 + ind)
         channel_maps = _concat(channel_maps_l, axis=0)
@@ -254,8 +257,13 @@ class Merger(object):
 
         for fn in template_data:
             arrays = _load_multiple_files(fn, self.subdirs)
-            # For ind arrays, we need to take into account the channel offset.
-            for array, offset in zip(arrays, self.channel_offsets):
+            if fn == 'pc_feature_ind.npy':
+                # Channel indices: shift by the number of channels of the previous probes.
+                offsets = self.channel_offsets
+            else:
+                # Template indices: shift by the number of templates of the previous probes.
+                offsets = [sum(int(a.shape[0]) for a in arrays[:i]) for i in range(len(arrays))]
+            for array, offset in zip(arrays, offsets):
                 array += offset
             concat = _concat(arrays, axis=0).astype(np.uint32)
             self._save(fn, concat)
